@@ -108,6 +108,7 @@ func VerifC05Histories() {
 	}
 	defer func() { voterecordsPoolPut = orig }()
 	steps := verifrt.Bound("steps", 4, 5)
+	symmetry := verifrt.Bound("fact-symmetry", 0, 1) == 1
 	np := len(verifC05Points)
 	for i := 0; i < steps; i++ {
 		c := verifrt.NondetChoice("step", 2*np+1+3)
@@ -116,6 +117,10 @@ func VerifC05Histories() {
 			pi, variant := c/2, c%2
 			p := verifC05Points[pi]
 			verifrt.Assume(s.nextNode[pi] < len(w.nodes))
+			if symmetry {
+				// thorough: up to renaming of the two facts of a point (the first vote for a point is for fact 0)
+				verifrt.Assume(variant == 0 || s.nextNode[pi] > 0)
+			}
 			node := s.nextNode[pi]
 			s.nextNode[pi]++
 			sf := w.signFact(node, p, variant)
